@@ -126,5 +126,24 @@ func subjLenCerts() [][]byte {
 			}
 		}
 	}
+	// values padded with blanks on either side (the length is the length of the value as it stands)
+	for _, attr := range []string{"givenName", "surname", "organizationName", "commonName"} {
+		at := attrByName(attr)
+		for _, pad := range []int{70, 32800} {
+			if pad > 100 && attr != "givenName" && attr != "surname" {
+				continue
+			}
+			for _, val := range []string{"Ann" + strings.Repeat(" ", pad), strings.Repeat(" ", pad) + "Ann", strings.Repeat(" ", pad/2) + "Ann" + strings.Repeat("\t", pad/2)} {
+				t := leafTemplate()
+				t.RawSubject = rawSubject([]subjAttr{{attrByName("countryName"), "US", 19}, {at, val, 12}}, nil)
+				if t.RawSubject == nil {
+					continue
+				}
+				if der, _, err := issue(t, nil); err == nil {
+					out = append(out, der)
+				}
+			}
+		}
+	}
 	return out
 }
